@@ -221,6 +221,40 @@ def numFieldKnown (kind field : String) : Bool :=
   | "btc" => ["startBlock", "blockInterval", "blockRetryInterval", "blockConfirmations", "feeAmount"].contains field
   | _ => false
 
+
+/-! describe / general -/
+
+def intList (s : String) : Option (List Int) := (s.splitOn ",").mapM String.toInt?
+
+def showInts (xs : List Int) : String := ",".intercalate (xs.map toString)
+
+def descHandle (specs : List FSpec) (tagName : String) (args : List String) (impl : String) : Verdict := Id.run do
+  match args with
+  | repr :: ws =>
+    if !(repr == "i" || repr == "f") || ws.length != specs.length then return bad
+    let some ws := ws.mapM optInt | return bad
+    let out := loadFields specs ws
+    let m := match out with
+      | some fs => let f := showInts fs; s!"ok:{f}|{showInts (describe fs)}|{showInts (describe (describe fs))}|{showInts (describe fs)}|t"
+      | none => "err"
+    -- predicate on the implementation's observations: every snapshot is the written values, the two descriptions agree
+    let ok := if impl == "err" then true else
+      match (impl.drop 3).toString.splitOn "|" with
+      | [a, b, c, d, same] =>
+        (match [a, b, c, d].mapM intList with
+         | some snaps => PDescribe specs ws (some snaps) && same == "t" && impl.startsWith "ok:"
+         | none => false)
+      | _ => false
+    return ⟨m, ok, s!"{tagName}:{if out.isSome then "ok" else "err"}:written={min (ws.filter Option.isSome).length 3}"⟩
+  | _ => return bad
+
+def tbOpt : String → Option (Option Bool)
+  | "_" => some none | "t" => some (some true) | "b" => some (some false) | _ => none
+
+def tbShow (b : Bool) : String := if b then "t" else "b"
+
+def lvldb : Bytes := "./lvldbdata".toUTF8.toList
+
 def handle (op : String) (args : List String) (impl : String) : Option Verdict :=
   match op, args with
   | "portrange", [w, lo, hi] => some <| Id.run do
@@ -370,6 +404,49 @@ def handle (op : String) (args : List String) (impl : String) : Option Verdict :
       -- the same texts with exactly the base-0 value excused
       let ok := match implOut with | some o => PPortTextExc t o | none => false
       return ⟨showP asIs, ok, s!"portbasex:{loader}:{if asIs.isSome then "ok" else "err"}"⟩
+  | "descevm", args => some (descHandle evmSpecs "descevm" args impl)
+  | "descsub", args => some (descHandle subSpecs "descsub" args impl)
+  | gop, [kind, mode, fr, la, bs, ff, fl, fb] =>
+    if !(gop == "general" || gop == "generalbs" || gop == "generalbsx") then none else some <| Id.run do
+    if (kindOf kind).isNone || !(mode == "v" || mode == "b") then return bad
+    let some fr := tbOpt fr | return bad
+    let some la := tbOpt la | return bad
+    let some bs := (if bs == "_" then some none else (fromHex bs).map some) | return bad
+    let some (some ff) := tbOpt ff | return bad
+    let some (some fl) := tbOpt fl | return bad
+    let some fbGiven := (if fb == "_" then some none else (fromHex fb).map some) | return bad
+    -- what viper reports for --blockstore: the given value; with the real flag wiring its default when not given
+    let fbAsIs : Bytes := match fbGiven with | some v => v | none => if mode == "b" then lvldb else []
+    let inClass := mode == "b" && fbGiven.isNone && (bs.getD []) != []
+    -- generalbs (KNOWN FINDING class): the flag was NOT given, the property demands the written per-chain path
+    let g : GenIn := ⟨fr, la, bs, ff, fl, if gop == "generalbs" then (fbGiven.getD []) else fbAsIs⟩
+    if gop != "general" && !inClass then return bad
+    if gop == "general" && inClass then return bad
+    let o := loadGeneral g
+    let m := s!"ok:{tbShow o.fresh}:{tbShow o.latest}:{toHexW o.bs}"
+    let ok := match impl.splitOn ":" with
+      | ["ok", a, b, c] =>
+        (match tbOpt a, tbOpt b, fromHex c with
+         | some (some a), some (some b), some c => PGeneral g ⟨a, b, c⟩
+         | _, _, _ => false)
+      | _ => false
+    return ⟨m, ok, s!"{gop}:{mode}:fresh={fr.isSome}:{ff}:latest={la.isSome}:{fl}"⟩
+  | nop, [repr, n] =>
+    if !(nop == "subnet" || nop == "subnetwrap" || nop == "subnetwrapx") then none else some <| Id.run do
+    if !(repr == "i" || repr == "f") then return bad
+    let some n := canonInt n | return bad
+    let inRange := decide (0 ≤ n) && decide (n ≤ 65535)
+    if (nop == "subnet") != inRange then return bad
+    let implOut : Option (Option Nat) := if impl == "err" then some none else
+      match impl.splitOn ":" with | ["ok", v] => v.toNat?.map some | _ => none
+    let asIs := loadSubNet n
+    match nop with
+    | "subnetwrap" =>   -- KNOWN FINDING class, strict: the property demands a rejection
+      return ⟨"err", (match implOut with | some o => PSubNet n o | none => false), "subnetwrap"⟩
+    | "subnetwrapx" =>  -- the same inputs with exactly the 16-bit wrap excused
+      return ⟨s!"ok:{asIs}", (match implOut with | some o => PSubNet n o || o == some asIs | none => false), "subnetwrapx"⟩
+    | _ =>
+      return ⟨s!"ok:{asIs}", (match implOut with | some o => PSubNet n o | none => false), "subnet"⟩
   | _, _ => none
 
 end Sygma.Drv.C20
